@@ -440,6 +440,9 @@ func (fc *FnCtx) appendOp(c *ssa.CallCommon, args []Val, st *State) Val {
 	tb := fc.tb
 	s := fc.term(args[0])
 	st0 := types.Unalias(c.Args[0].Type()).Underlying().(*types.Slice)
+	if structElems(st0.Elem()) {
+		return fc.appendStructs(st0.Elem(), s, fc.term(args[1]), st)
+	}
 	key, es := fc.elemKey(st0.Elem())
 	esrt := ArraySort("Ref", ArraySort("Int", es))
 	var add *Term // appended slice (Slice sort) or string
@@ -515,6 +518,9 @@ func (fc *FnCtx) copyOp(c *ssa.CallCommon, args []Val, st *State) Val {
 	dst := fc.term(args[0])
 	src := fc.term(args[1])
 	st0 := types.Unalias(c.Args[0].Type()).Underlying().(*types.Slice)
+	if structElems(st0.Elem()) {
+		fc.unsup("copy() of a slice of struct values")
+	}
 	key, es := fc.elemKey(st0.Elem())
 	m := fc.heapGet(st, key, ArraySort("Ref", ArraySort("Int", es)))
 	dl := tb.App("s_len", "Int", dst)
